@@ -341,6 +341,16 @@ func (g *gen) genFn(i int) {
 	if g.p.Enter {
 		g.emit("enter(%d)", i+1)
 	}
+	if g.p.Probes {
+		// probe the pointer-like parameters at entry: aliases between the caller's and the callee's values
+		for _, v := range g.scope {
+			fn := map[Type]string{TPS: "probePS", TPStr: "probeP", TSlice: "probeL", TMap: "probeM"}[v.typ]
+			if fn != "" {
+				g.nprobe++
+				g.emit("%s(%d, %s)", fn, g.nprobe, v.name)
+			}
+		}
+	}
 	n := g.p.FnStmts[0] + g.intn(g.p.FnStmts[1]-g.p.FnStmts[0]+1, "fnn")
 	g.depth = 1
 	saved := len(g.scope)
@@ -444,6 +454,9 @@ func Generate(t *rapid.T, p *Profile) *Program {
 	for k := 0; k < n; k++ {
 		g.stmt()
 	}
+	if p.Go {
+		g.emit("waitall()")
+	}
 	// closing sinks: make sure data that was moved around has a chance to be observed
 	for k := 0; k < 2; k++ {
 		g.sinkStmt()
@@ -510,13 +523,33 @@ func validateE(bit int, x string) error {
 	}
 	return verr{}
 }
+
+func gstart() {}
+
+func gdone() {}
+
+func waitall() {}
+
+func yield() {}
+
+func probePS(id int, p *S) {}
+
+func probeP(id int, p *string) {}
+
+func probeL(id int, l []string) {}
+
+func probeM(id int, m map[string]string) {}
 `
 
 // NativePrelude returns prelude.go of the native rendering (package pkg, runtime in module path rtPath).
 func NativePrelude(pkg string, rtPath string) string {
 	return `package ` + pkg + `
 
-import rt "` + rtPath + `"
+import (
+	"unsafe"
+
+	rt "` + rtPath + `"
+)
 
 func cond(i int) bool { return rt.Cond(i) }
 
@@ -559,6 +592,30 @@ func validateE(bit int, x string) error {
 		return nil
 	}
 	return verr{}
+}
+
+func gstart() { rt.GStart() }
+
+func gdone() { rt.GDone() }
+
+func waitall() { rt.WaitAll() }
+
+func yield() { rt.Yield() }
+
+func probePS(id int, p *S) { rt.Probe(id, 0, unsafe.Pointer(p), unsafe.Sizeof(*p)) }
+
+func probeP(id int, p *string) { rt.Probe(id, 1, unsafe.Pointer(p), unsafe.Sizeof(*p)) }
+
+func probeL(id int, l []string) {
+	if cap(l) > 0 {
+		rt.Probe(id, 2, unsafe.Pointer(unsafe.SliceData(l)), uintptr(cap(l))*unsafe.Sizeof(""))
+	}
+}
+
+func probeM(id int, m map[string]string) {
+	if m != nil {
+		rt.Probe(id, 3, *(*unsafe.Pointer)(unsafe.Pointer(&m)), 8)
+	}
 }
 
 // Run executes the program once (package-level variables are first reset to their initial values, so that several
